@@ -26,7 +26,7 @@ func workerLive(r *vk.Run, w, n int, args []string) {
 	rng := rand.New(rand.NewSource(r.Seed*7919 + int64(w)*131 + 3))
 	sessions := 48
 	if !r.Quick() {
-		sessions = 400
+		sessions = 2400
 	}
 	per := (sessions + n - 1) / n
 	for i := 0; i < per; i++ {
